@@ -2,6 +2,7 @@
    barrier has counted every shard, and the collection is marked dropped from then on *)
 From Coq Require Import List String NArith ZArith Bool Arith Lia Permutation Sorting.Sorted.
 From Verif Require Import Base.Util Reader.Model Reader.Script Reader.Proofs C03.Proofs.
+From Verif Require Import Reader.Forget.
 Import ListNotations.
 Local Open Scope string_scope.
 
@@ -207,9 +208,15 @@ Qed.
 Lemma fold_add_shard_T3 c ref : forall shards s, T3 s (fold_left (fun s sh => add_shard s c ref sh) shards s).
 Proof. induction shards as [|sh r IH]; intros s; cbn [fold_left]; [apply T3_refl|]. eapply T3_trans; [apply add_shard_T3|apply IH]. Qed.
 
+Lemma forget_T3 l b x : T3 x (forget_fired l b x).
+Proof.
+  pose proof (forget_fired_frame l b x) as F. unfold same_but_heap in F. unfold T3, keys.
+  repeat match goal with H : _ /\ _ |- _ => destruct H end. repeat split; congruence.
+Qed.
+
 Lemma step_DI retries s l : DI s -> DI (step retries s l).
 Proof.
-  intros D. unfold step. apply (DI_T3 _ _ (fire_pbars_T3 _)). apply fire_cbars_DI.
+  intros D. unfold step. apply (DI_T3 _ _ (forget_T3 _ _ _)). apply (DI_T3 _ _ (fire_pbars_T3 _)). apply fire_cbars_DI.
   destruct l as [c|c pid pname th|c cname spch p answers|cs|c spchs|ns nt].
   - destruct (zmem (ci_id c) (dcolls s)) eqn:Hd; [exact D|]. destruct (zlookup (cbars s) (ci_id c)) eqn:Hz; [exact D|].
     destruct (pairing c) as [shards|]; [|exact D].
@@ -268,6 +275,7 @@ Qed.
 Lemma step_dcolls retries s l c : zmem c (dcolls s) = true -> zmem c (dcolls (step retries s l)) = true.
 Proof.
   intros H. unfold step.
+  match goal with |- zmem c (dcolls (forget_fired ?l ?b ?y)) = true => destruct (forget_T3 l b y) as [_ [_ ->]] end.
   match goal with |- zmem c (dcolls (fire_pbars (fire_cbars ?x))) = true => destruct (fire_pbars_T3 (fire_cbars x)) as [_ [_ ->]] end.
   apply fire_cbars_dcolls.
   destruct l as [c0|c0 pid pname th|c0 cname spch p answers|cs|c0 spchs|ns nt].
